@@ -64,6 +64,32 @@ static bool history(uint64_t seed, bool zero_len, std::string* desc) {
     if (!lock.m_index.empty()) { snprintf(b, sizeof b, "%zu range(s) are still held after every holder unlocked by (offset, length)", lock.m_index.size()); why = b; return false; }
     return true;
 }
+// waiters: every thread blocked by a held range proceeds once that range is unlocked (they may want disjoint parts of it, or the same part)
+struct WJob { Exposed* lock; uint64_t off, len; volatile int* got; volatile int* inside; volatile int* bad; };
+static void* w_fn(void* a) {
+    auto j = (WJob*)a; auto h = j->lock->lock(j->off, j->len);
+    if (*j->inside & (1 << (j->off / 10))) *j->bad = 1;      // somebody else holds an overlapping range right now
+    *j->inside |= (1 << (j->off / 10));
+    photon::thread_yield();
+    *j->inside &= ~(1 << (j->off / 10));
+    j->lock->unlock(h); *j->got = *j->got + 1; return 0;
+}
+static bool waiters_case(int shape) {
+    Exposed lock; volatile int got = 0, inside = 0, bad = 0;
+    auto big = lock.lock(0, 100);
+    std::vector<WJob> jobs;
+    if (shape == 0) { for (int i = 0; i < 4; i++) jobs.push_back({&lock, (uint64_t)i * 10, 10, &got, &inside, &bad}); }        // disjoint sub-ranges
+    else if (shape == 1) { for (int i = 0; i < 3; i++) jobs.push_back({&lock, 20, 10, &got, &inside, &bad}); }                 // the same range
+    else { for (int i = 0; i < 5; i++) jobs.push_back({&lock, (uint64_t)(i % 2) * 10 + 30, 10, &got, &inside, &bad}); }          // mixed
+    for (auto& j : jobs) photon::thread_create(&w_fn, &j);
+    for (int i = 0; i < 20; i++) photon::thread_yield();                                                                      // all of them are waiting now
+    if (got != 0) { why = "a request overlapping a held range was granted"; return false; }
+    lock.unlock(big);
+    for (int i = 0; i < 400 && got < (int)jobs.size(); i++) photon::thread_usleep(500);
+    if (bad) { why = "two overlapping ranges were held at the same time after the wake-up"; return false; }
+    if (got < (int)jobs.size()) { char b[200]; snprintf(b, sizeof b, "%d of %zu threads that waited for the range [0,100) were never woken after it was unlocked (nothing conflicts any more)", (int)jobs.size() - got, jobs.size()); why = b; return false; }
+    return true;
+}
 template<class F> static int in_child(F f, int secs, std::string* msg) {
     int p[2]; if (pipe(p)) return 2;
     pid_t c = fork();
@@ -80,12 +106,18 @@ int main(int argc, char** argv) {
     uint64_t seed0 = getenv("VERIF_SEED") ? strtoull(getenv("VERIF_SEED"), 0, 10) : 1;
     if (argc >= 3 && !strcmp(argv[1], "--replay")) {
         std::ifstream f(argv[2]); std::stringstream ss; ss << f.rdbuf(); std::string j = ss.str(), msg; auto p_ = j.find("\"seed\": ");
+        if (j.find("waiters") != std::string::npos || j.find("range_dtor") != std::string::npos) { int bad_ = 0; for (int shape = 0; shape < 3; shape++) { int r = in_child([&] { return waiters_case(shape); }, 20, &msg); if (r) { bad_ = 1; break; } }
+            printf("%s %s\n", bad_ ? "REPRODUCED" : "NOT-REPRODUCED", msg.c_str()); return 0; }
         if (p_ == std::string::npos) { printf("NOT-REPRODUCED no concrete history for this obligation\n"); return 0; }
         uint64_t sd = strtoull(j.c_str() + p_ + 8, 0, 10); bool z = j.find("empty_denotation") != std::string::npos; static std::string d;
         int r = in_child([&] { bool ok = history(sd, z, &d); if (!ok) why = d + ": " + why; return ok; }, 20, &msg);
         printf("%s %s\n", r ? "REPRODUCED" : "NOT-REPRODUCED", msg.c_str()); return 0;
     }
     uint64_t N = argc > 1 ? strtoull(argv[1], 0, 10) : 20000, cases = 0;
+    for (int shape = 0; shape < 3; shape++) {
+        std::string msg; int r = in_child([&] { return waiters_case(shape); }, 20, &msg); ++cases;
+        if (r) { for (auto& ch : msg) if (ch == '"') ch = '\''; printf("CEX waiters {\"kind\": \"waiters\", \"shape\": %d, \"why\": \"%s\"}\n", shape, msg.c_str()); return 3; }
+    }
     for (int zl = 0; zl < 2; zl++) {
         for (uint64_t base = 0; base < N; base += 2000) {
             std::string msg; static uint64_t bad; static std::string d;
@@ -99,6 +131,6 @@ int main(int argc, char** argv) {
             cases += 2000;
         }
     }
-    printf("OK %lu (random single-vCPU histories of try_lock_wait2 / unlock / adjust_range on the real RangeLock against a shadow list; ranges up to the top of the 64-bit space; requests that denote no byte (length 0, or offset 2^64-1 under the saturating end) in a second campaign)\n", (unsigned long)cases);
+    printf("OK %lu (three waiter scenarios: every thread blocked by a held range proceeds after the unlock; random single-vCPU histories of try_lock_wait2 / unlock / adjust_range on the real RangeLock against a shadow list; ranges up to the top of the 64-bit space; requests that denote no byte (length 0, or offset 2^64-1 under the saturating end) in a second campaign)\n", (unsigned long)cases);
     return 0;
 }
